@@ -129,26 +129,39 @@ void UnicodeRangeFactory::buildRanges(RangeTokenMap *rangeTokMap) {
     // Create all range
     tok = tokFactory->createRange();
     tok->addRange(0, Token::UTF16_MAX);
+    // The complements are built here as well, like those of the categories:
+    // a complement created on first use would be shared state that threads
+    // build, and whose creation re-arranges the token it is derived from,
+    // while other threads already use that token.
+    RangeToken* complTok = RangeToken::complementRanges(tok, tokFactory);
     // build the internal map.
     tok->createMap();
+    complTok->createMap();
     rangeTokMap->setRangeToken(fgUniAll, tok);
+    rangeTokMap->setRangeToken(fgUniAll, complTok , true);
 
     // Create alpha range
     tok = tokFactory->createRange();
     tok->mergeRanges(ranges[XMLUniCharacter::UPPERCASE_LETTER]);
     tok->mergeRanges(ranges[XMLUniCharacter::LOWERCASE_LETTER]);
     tok->mergeRanges(ranges[XMLUniCharacter::OTHER_LETTER]);
+    complTok = RangeToken::complementRanges(tok, tokFactory);
     // build the internal map.
     tok->createMap();
+    complTok->createMap();
     rangeTokMap->setRangeToken(fgUniIsAlpha, tok);
+    rangeTokMap->setRangeToken(fgUniIsAlpha, complTok , true);
 
     // Create alpha-num range
     RangeToken* alnumTok = tokFactory->createRange();
     alnumTok->mergeRanges(tok);
     alnumTok->mergeRanges(ranges[XMLUniCharacter::DECIMAL_DIGIT_NUMBER]);
+    complTok = RangeToken::complementRanges(alnumTok, tokFactory);
     // build the internal map.
     alnumTok->createMap();
+    complTok->createMap();
     rangeTokMap->setRangeToken(fgUniIsAlnum, alnumTok);
+    rangeTokMap->setRangeToken(fgUniIsAlnum, complTok , true);
 
     // Create word range
     tok = tokFactory->createRange();
@@ -168,9 +181,12 @@ void UnicodeRangeFactory::buildRanges(RangeTokenMap *rangeTokMap) {
                 ranges[XMLUniCharacter::UNASSIGNED],
                 tokFactory,
                 tokFactory->getMemoryManager());
+    complTok = RangeToken::complementRanges(tok, tokFactory);
     // build the internal map.
     tok->createMap();
+    complTok->createMap();
     rangeTokMap->setRangeToken(fgUniAssigned,tok);
+    rangeTokMap->setRangeToken(fgUniAssigned, complTok , true);
 
     // Create space range
     tok = tokFactory->createRange();
